@@ -117,7 +117,7 @@ CLAIMED = {
             "option, that rules and simple controls convert thresholds/settings with one attribute->unit map on both sides, that 2.0-format "
             "files omit only the 2.2 options, and that the time-string helpers are inverse. Additionally, bounded to one rich fixture model: the write -> read -> write -> read round trip in all ten flow-unit systems and both INP versions preserves elements, patterns, used curves, sources, options, controls and rules to file precision (interpreted by the in-house interpreter).",
             "Does not decide text formatting precision, idempotence of a second cycle, write guards relying on EPANET defaults, nor models the "
-            "API can build that INP cannot express. [REPORT]/[BACKDROP]/[LABELS] are outside the statement. The fixture round trip decides its clause on that model only.", "DESIGN.md §4 C12"),
+            "API can build that INP cannot express. [REPORT]/[BACKDROP]/[LABELS] are outside the statement. The fixture round trip decides its clause on the two fixture models only (half of the combinations re-use one InpFile object for all writes and reads); that per-file state of a reader object is reset before a second read is decided structurally (R-C12-18).", "DESIGN.md §4 C12"),
     "C13": ("serializer/deserializer agreement over tables extracted from the AST: keys the generic to_dict can emit are derived from the class "
             "table (properties, setters, exclusion lists, API writers of backing fields) and joined with the keys each from_dict branch reads and "
             "the attribute each lands in (through add_* signatures and registry assignments); tuple-only setter tests vs conversions; control "
@@ -148,7 +148,7 @@ CLAIMED = {
             "Decides that no path stores/saves/appends a step whose last solve failed, that every failure exit raises (iff convergence_error) or "
             "warns + sets error_code + leaves the loop, that solve returns a status triple on every exit and `converged` only under the tolerance "
             "test, that each saved row gets exactly one time stamp, that all result families/keys are appended once per element per save and "
-            "labelled from the same name list, and that time or the bounded trial counter strictly advances on every way round the loop. Failure signals of the external numerical routines called in the solve path are covered by the handlers that report SolverStatus.error (table of library contracts); the result tables hold, per saved step, what the elements had (one mock model).",
+            "labelled from the same name list, and that time or the bounded trial counter strictly advances on every way round the loop. Failure signals of the external numerical routines called in the solve path are covered by the handlers that report SolverStatus.error (table of library contracts); the result tables hold, per saved step, what the elements had (one mock model). The report step the simulator settles on is a positive multiple of the hydraulic step it settles on for every one of 108 (hydraulic, pattern, report) option triples (interpreted), so that a row exists at every report instant.",
             "Does not decide finiteness of the numbers nor termination when back-tracking keeps inserting partial steps. Implicit exceptions "
             "(other than explicit raise / try-except edges) are not modelled. The table of library contracts is part of the trusted base.", "DESIGN.md §4 C16"),
     "C17": ("partial evaluation (constant folding with the value as a linear form k*x+c) of the conversion branch tree for every "
